@@ -166,10 +166,14 @@ def decode_for(fmt, data):
     """The game's stored form: LZ10 stream (FE9/FE10); 0x13 + 24-bit field + LZ11 stream (FE13-15)."""
     data = bytes(data)
     if fmt == "10":
-        return lz_stream(data, 0x10)
-    if len(data) < 4 or data[0] != 0x13:
+        # the LZ10 entry hands the bytes to the shared expander, which also takes a bare LZ11 stream (C11: formats crossed)
+        return lz_stream(data, 0x10) if data[:1] == b"\x10" else lz_stream(data, 0x11)
+    if len(data) < 4:
         return None
-    return lz_stream(data[4:], 0x11)
+    if data[0] == 0:
+        return data[4:]                      # stored form of the LZ13 entry (C11_stored_form): the bytes behind a 4-byte header
+    body = data[4:] if data[0] == 0x13 else data       # a bare stream is passed through (C11_bare_stream_passed_through)
+    return lz_stream(body, 0x10) if body[:1] == b"\x10" else lz_stream(body, 0x11)
 
 
 # ----------------------------------------------------------------------------- localisation (C14's table)
